@@ -104,8 +104,45 @@ def decide1 (clause : String) (c : Caller) (exact timed : Bool) (obs : List Stri
     (c.specDeadlines exact).any (fun h => renderExpect timed (spec h) == obsStr obs)
   (m, verdict [(clause, ok)])
 
+/-- Late-poll kinds: the spec accepts a SET of observations (in the window "finished after the
+deadline, before the caller looked" either outcome is acceptable); the verdict holds iff the
+observed tokens render one of them under one admissible reading of the caller's deadline. -/
+def decideL (clause : String) (c : Caller) (exact : Bool) (obs : List String)
+    (model : Option Nat → String) (spec : Option Nat → List Spec.Timeout.Expect) : String × String :=
+  let m := match c.modelHeader exact with
+    | some h => model h
+    | none => "panic"
+  let ok := c.outOfRange ||
+    (c.specDeadlines exact).any (fun h => (spec h).any (fun e => renderExpect true e == obsStr obs))
+  (m, verdict [(clause, ok)])
+
 def handle (case obs : List String) : String × String :=
   match case with
+  | ["runl", c, s, l, b] =>
+    -- the middleware alone, its future obtained at time 0 and first polled at `b`
+    match caller? c, optNat? s, lat? l, nat? b with
+    | some c, some s, some l, some b =>
+      decideL "late-poll-deadline-counts-from-dispatch" c false obs
+        (fun h => renderDone true (lateStage h s (answer l) b))
+        (fun h => Spec.Timeout.lateExpected [h, s] l b)
+    | _, _, _, _ => bad
+  | ["clil", peer, c, e, l, b] =>
+    -- a real Channel through poll_ready + call, the response future first polled at `b`
+    match caller? c, optNat? e, lat? l, nat? b with
+    | some c, some e, some l, some b =>
+      if peer = "silent" || peer = "routes" then
+        decideL "late-poll-client-deadline-counts-from-dispatch" c false obs
+          (fun h => renderDone true (clientCallLate h e (plainPeer l) b))
+          (fun h => Spec.Timeout.lateExpected [h, e] l b)
+      else bad
+    | _, _, _, _ => bad
+  | ["e2el", c, s, e, l, b] =>
+    match caller? c, optNat? s, optNat? e, nat? l, nat? b with
+    | some c, some s, some e, some l, some b =>
+      decideL "late-poll-end-to-end-deadline-counts-from-dispatch" c false obs
+        (fun h => renderDone true (endToEndLate h s e (some l) b))
+        (fun h => Spec.Timeout.lateExpected [h, s, e] (some l) b)
+    | _, _, _, _, _ => bad
   | ["enc", ds] =>
     match nat? ds with
     | none => bad
